@@ -53,8 +53,8 @@ Definition b2z (b : bool) : Z := if b then 1 else 0.
 Definition time_of (o : pop) : Z := match o with Acq t | Tua t => t end.
 Definition atime_of (o : aop) : Z := match o with ACall o => time_of o | RecS t | RecF t => t end.
 (** 1 when the operation is an acquire that was granted (result 1). *)
-Definition admit (o : pop) (r : Z) : Z := match o with Acq _ => r | _ => 0 end.
-Definition aadmit (o : aop) (r : Z) : Z := match o with ACall o => admit o r | _ => 0 end.
+Definition granted (o : pop) (r : Z) : Z := match o with Acq _ => r | _ => 0 end.
+Definition agranted (o : aop) (r : Z) : Z := match o with ACall o => granted o r | _ => 0 end.
 
 (** Run a sequence; returns the final state and the number of granted acquires. *)
 Fixpoint run_count {S Op} (adm : Op -> Z -> Z) (step : S -> Op -> S * Z) (s : S) (ops : list Op) : S * Z :=
